@@ -3,6 +3,7 @@ package main
 // Per-function verification: entry state, passes, postconditions.
 
 import (
+	"os"
 	"fmt"
 	"go/ast"
 	"go/token"
@@ -58,6 +59,24 @@ func (p *Prog) VerifyFunc(key string) (*VC, error) {
 	vc.discover = false
 	vc.resetPass()
 	vc.runPass()
+	// vacuity guard: every anchored assertion that matched a program point must have produced an
+	// obligation (otherwise the hook for that kind of anchor did not run)
+	for _, a := range vc.contract.Asserts {
+		if a.Assume || a.Optional || (len(a.Anchor) > 0 && a.Anchor[len(a.Anchor)-1] == '*') {
+			continue
+		}
+		want := fmt.Sprintf("%s#assert@%s[%s]", fi.Key, a.Anchor, a.Var)
+		found := false
+		for _, o := range vc.obls {
+			if len(o.Name) >= len(want) && o.Name[:len(want)] == want {
+				found = true
+				break
+			}
+		}
+		if !found {
+			vc.fail("anchored assertion @%s [%s] produced no obligation (unreached program point?)", a.Anchor, a.Var)
+		}
+	}
 	if len(vc.errs) > 0 {
 		seen := map[string]bool{}
 		var u []string
@@ -94,6 +113,9 @@ func (vc *VC) runPass() {
 				// channels that do not exist yet are not closed
 				h := st.heap[n].S
 				vc.emit(fmt.Sprintf("(assert (forall ((r Int)) (! (=> (> r alloc$base) (not (select %s r))) :pattern ((select %s r)))))", h, h))
+			}
+			if noRefAxioms {
+				continue
 			}
 			if vc.universe[n] == arrSort(SInt, SSlc) {
 				// slices stored in objects on entry were allocated before the call
@@ -236,3 +258,7 @@ func (vc *VC) runPass() {
 	}
 	_ = token.NoPos
 }
+
+// noRefAxioms (debugging aid, GOVC_NOREFAXIOMS=1): omit the quantified "entry references are
+// already allocated" axioms so that solvers can produce models for failing obligations.
+var noRefAxioms = os.Getenv("GOVC_NOREFAXIOMS") != ""
